@@ -37,7 +37,8 @@ def gen_pgs(m, rng, job):
     for idx in block(job):
         codes = nth_word(CODE_ALPHA, idx)
         for enc in ('str', 'ints', 'strs'):
-            for adderr in (False, True):
+            # strict, lenient, strict again: a result must not depend on earlier calls with the other flag
+            for adderr in (False, True, False):
                 o = {'op': 'pgs', 'codes': codes, 'enc': enc, 'adderr': adderr}
                 oplist.append(o)
                 ops.run(m, o)
@@ -62,7 +63,8 @@ def gen_pcs(m, rng, job):
     oplist = []
     for idx in block(job):
         s = ''.join(nth_word(CS_ALPHA, idx))
-        for allow, acc in ((True, None), (False, None), (False, 'm'), (True, 'mH')):
+        # the same string again under flags used before: a parse must not depend on earlier parses
+        for allow, acc in ((True, None), (False, None), (False, 'm'), (True, 'mH'), (True, None), (False, 'm')):
             o = {'op': 'pcs', 's': s, 'allow': allow, 'acc': acc}
             oplist.append(o)
             ops.run(m, o)
